@@ -816,6 +816,7 @@ pub struct Seg {
 }
 
 pub struct Space {
+    pub mutated_corpus_queries: usize,
     pub segs: Vec<Seg>,
     pub total: usize,
     pub max_tokens: usize,
@@ -860,7 +861,9 @@ impl Space {
             }
         }
         for lang in LANGS {
-            let queries = corpus(lang);
+            // quick tier mutates the first 30 corpus queries of each language, thorough all of them
+            let mut queries = corpus(lang);
+            queries.truncate(tier.pick(30, usize::MAX));
             let mut offsets = vec![0usize];
             for q in &queries {
                 offsets.push(offsets.last().unwrap() + mutant_count(q));
@@ -880,7 +883,7 @@ impl Space {
             s.start = total;
             total += s.count;
         }
-        Space { segs, total, max_tokens, ladder_max_log2 }
+        Space { mutated_corpus_queries: tier.pick(30, usize::MAX), segs, total, max_tokens, ladder_max_log2 }
     }
 
     pub fn seg_of(&self, i: usize) -> &Seg {
